@@ -66,6 +66,12 @@ def runners(st):
     if 'linearized' in st:
         lp = axm.Prog(st['linearized'])
         R['linearized'] = lambda vals, ctx: axm.run_positional(lp, vals, ctx)
+    a = st['raw'].get('asm', {}).get('x86_64', {}) if isinstance(st['raw'].get('asm'), dict) else {}
+    if 'text' in a:
+        import x86prog
+        R['x86'] = lambda vals, ctx: x86prog.run(a['text'], vals, ctx)
+    elif 'panic' in a:
+        st['raw'].setdefault('panic', {'stage': 'x86_64 code generation', 'msg': a['panic']})
     return R
 
 
@@ -74,7 +80,7 @@ def stage_item(item):
     t0 = time.time()
     out = {'name': item['name'], 'pairs': item['pairs'], 'results': {}, 'status': 'ok'}
     try:
-        st = load(item)
+        st = load(item, want_asm=any('x86' in p_ for p_ in item['pairs']))
     except Exception as e:
         out.update(status='error', what=f"load: {type(e).__name__}: {e}")
         return out
@@ -96,11 +102,12 @@ def stage_item(item):
                 out['results'][f"{a_}->{b_}"] = {'skipped': f"stage panicked: {raw['panic']}"}
                 out['status'] = 'panic'
             continue
-        res = product.product(R[a_], R[b_], n, max_steps=b['max_steps'], max_paths=b['max_paths'],
+        res = product.product(R[a_], R[b_], n, max_steps=b['max_steps'] * (10 if b_ == 'x86' else 1), max_paths=b['max_paths'],
+                              result_bits=8 if b_ == 'x86' else 64,
                               time_budget=b.get('time_budget', 60.0), timeout_ms=b.get('timeout_ms', 3000))
         confirmed = []
         for v in res['violations']:
-            ok, detail = product.confirm(R[a_], R[b_], v['args'], b['max_steps'] * 10)
+            ok, detail = product.confirm(R[a_], R[b_], v['args'], b['max_steps'] * 100, result_bits=8 if b_ == 'x86' else 64)
             v['reproduced'] = ok
             v['replay'] = detail
             confirmed.append(ok)
@@ -223,3 +230,11 @@ def c05():
     items = [dict(it, pairs=[('shrunk', 'linearized')]) for it in corpus() + gen_items(tier, 'all')]
     return run_tv('C05', items, "AxCut programs produced by the pipeline for the C02-C04 sets; AxM(named) x AxM(positional) where the positional "
                   "machine enforces the exact-environment discipline of every statement (kind, type, position) on every explored path")
+
+
+def c01():
+    tier = fw.tier()
+    items = [dict(it, pairs=[('fun', 'x86')]) for it in corpus() + gen_items(tier, 'sequenced')]
+    return run_tv('C01', items, "repository corpus + the effect-sequenced families; FunM x symbolic execution of the printed x86-64 routine "
+                  "(prologue, body, epilogue; concrete-layout mode) with the driver / print contracts of C20; exit status compared modulo 256",
+                  key_fn=c02_key)
